@@ -23,6 +23,9 @@ THEOREMS = [
     "C01_instancecheck",
     "C01_rank",
     "C01_bcast_spec",
+    "C01_source_check_dims",
+    "C01_source_variadic",
+    "C01_source_variadic_first",
 ]
 RULE = (
     "histories of array checks (dim string, shape, dtype/type flags) inside one jaxtyped context or "
